@@ -799,7 +799,7 @@ func (p *g1JacExtended) doubleNegMixed(q *G1Affine) *g1JacExtended {
 	XX.Square(&q.X)
 	M.Double(&XX).
 		Add(&M, &XX)
-	Z.Square(&p.ZZ)
+	Z.SetOne() // a*ZZ² with a = 1 and ZZ = 1 for the affine operand (not the receiver's ZZ)
 	M.Add(&M, &Z)
 	S2.Double(&S)
 	L.Mul(&W, &q.Y)
@@ -829,7 +829,7 @@ func (p *g1JacExtended) doubleMixed(q *G1Affine) *g1JacExtended {
 	XX.Square(&q.X)
 	M.Double(&XX).
 		Add(&M, &XX)
-	Z.Square(&p.ZZ)
+	Z.SetOne() // a*ZZ² with a = 1 and ZZ = 1 for the affine operand (not the receiver's ZZ)
 	M.Add(&M, &Z)
 	S2.Double(&S)
 	L.Mul(&W, &q.Y)
